@@ -4,7 +4,7 @@
    soundness half of C01 (a generated move never leaves the mover's king attacked). *)
 From Coq Require Import NArith ZArith List Bool Lia Permutation FMapPositive.
 From Rawr Require Import Consts Bits Magic Position MoveGen MakeMove MakeStages Eval TT Search
-                         BitsFacts AbsFacts HashFacts MakeFacts KeyAbs NotationFacts AttackFacts AttackAbs BoundFacts GenSane Closure ClosureNull MenCount
+                         BitsFacts AbsFacts HashFacts MakeFacts KeyAbs NotationFacts AttackFacts AttackAbs BoundFacts GenSane Closure ClosureNull MenCount EpRetro
                          TTFacts SearchFacts SearchFacts2.
 Import ListNotations.
 Local Open Scope Z_scope.
@@ -36,13 +36,13 @@ Proof. intros H. inversion H. split; reflexivity. Qed.
 Section Bound.
 Variable stopf : Stats -> bool.
 (* C01, soundness half: a generated move never leaves the mover's own king attacked *)
-Hypothesis GenLegal : forall u p m, Inv0 p -> In m (legal_moves p) -> in_check_them (makemove u p m) = false.
+Hypothesis GenLegal : forall u p m, Inv0 p -> ep_ok_b p = true -> In m (legal_moves p) -> in_check_them (makemove u p m) = false.
 
 (* ------------------------------------------------------------------ quiescence *)
 Definition qbnd (qrec : Position -> Stats -> Z -> Z -> Z -> option (Z * Stats)) : Prop :=
-  forall q st a b pl v st', Inv16 q -> qrec q st a b pl = Some (v, st') -> Z.abs v <= EVB.
+  forall q st a b pl v st', Inv16R q -> qrec q st a b pl = Some (v, st') -> Z.abs v <= EVB.
 
-Lemma q_loop_bnd qrec p beta ply : qbnd qrec -> Inv16 p ->
+Lemma q_loop_bnd qrec p beta ply : qbnd qrec -> Inv16R p ->
   forall ms st alpha best v st', (forall m, In m ms -> In m (legal_moves p)) -> Z.abs best <= EVB ->
   q_loop qrec p beta ply ms st alpha best = Some (v, st') -> Z.abs v <= EVB.
 Proof.
@@ -51,7 +51,7 @@ Proof.
   - match type of H with match ?x with _ => _ end = _ => destruct x as [[v0 st0]|] eqn:E; [|discriminate] end.
     assert (Hm : In m (legal_moves p)) by (apply Hms; left; reflexivity).
     assert (Hv0 : Z.abs v0 <= EVB).
-    { apply (Hq _ _ _ _ _ _ _ (inv16_step false p m Hp Hm (GenLegal false p m (i16_inv p Hp) Hm)) E). }
+    { apply (Hq _ _ _ _ _ _ _ (inv16R_step false p m Hp Hm (GenLegal false p m (i16_inv p (i16r p Hp)) (i16r_ep p Hp) Hm)) E). }
     cbv zeta in H.
     assert (Hb' : Z.abs (if best <? - v0 then - v0 else best) <= EVB) by (destruct (best <? - v0); lia).
     destruct (beta <=? _).
@@ -62,7 +62,7 @@ Qed.
 Theorem qsearch_bnd : forall fuel, qbnd (qsearch fuel).
 Proof.
   induction fuel as [|f IH]; intros q st a b pl v st' Hq H; [discriminate|]. cbn [qsearch] in H. cbv zeta in H.
-  pose proof (inv16_eval q Hq) as He. fold EVB in He.
+  pose proof (inv16_eval q (i16r q Hq)) as He. fold EVB in He.
   destruct (b <=? eval q); [injection H as <- _; exact He|].
   apply (q_loop_bnd (qsearch f) q b pl IH Hq _ _ _ _ _ _) in H; [exact H| |exact He].
   intros m Hm. apply captures_are_moves. apply (Permutation_in _ (sort_q_perm q (legal_captures q))). exact Hm.
@@ -70,11 +70,11 @@ Qed.
 
 (* ------------------------------------------------------------------ the main search *)
 Definition nbnd (rec : Position -> SS -> Z -> Z -> Z -> Z -> bool -> option (Z * SS)) (plymax : Z) : Prop :=
-  forall q s a b pl d cn v s', InvS q -> TBnd (ss_tt s) -> 0 <= pl <= plymax ->
+  forall q s a b pl d cn v s', InvSR q -> TBnd (ss_tt s) -> 0 <= pl <= plymax ->
   rec q s a b pl d cn = Some (v, s') -> Z.abs v <= VB /\ TBnd (ss_tt s').
 
 Lemma search_move_bnd rec plymax p in_chk beta ply depth idx m np s alpha score s' :
-  nbnd rec plymax -> InvS np -> TBnd (ss_tt s) -> 0 <= ply + 1 <= plymax ->
+  nbnd rec plymax -> InvSR np -> TBnd (ss_tt s) -> 0 <= ply + 1 <= plymax ->
   search_move rec p in_chk beta ply depth idx m np s alpha = Some (score, s') -> Z.abs score <= VB /\ TBnd (ss_tt s').
 Proof.
   intros Hr Hnp Ht Hpl H. unfold search_move in H. destruct (idx =? 0).
@@ -90,7 +90,7 @@ Qed.
 
 Definition best_ok (best : Z) (bm : option Mv) : Prop := bm = None \/ Z.abs best <= VB.
 
-Lemma n_loop_bnd rec plymax p in_chk beta ply depth : nbnd rec plymax -> InvS p -> 0 <= ply + 1 <= plymax ->
+Lemma n_loop_bnd rec plymax p in_chk beta ply depth : nbnd rec plymax -> InvSR p -> 0 <= ply + 1 <= plymax ->
   forall ms idx s alpha best bm r, (forall m, In m ms -> In m (legal_moves p)) -> TBnd (ss_tt s) -> best_ok best bm ->
   n_loop rec p in_chk beta ply depth ms idx s alpha best bm = Some r ->
   TBnd (ss_tt (snd r)) /\ best_ok (snd (fst (fst r))) (snd (fst r)).
@@ -99,8 +99,8 @@ Proof.
   - injection H as <-. cbn [fst snd]. split; assumption.
   - match type of H with match ?x with _ => _ end = _ => destruct x as [[score s1]|] eqn:E; [|discriminate] end.
     assert (Hm : In m (legal_moves p)) by (apply Hms; left; reflexivity).
-    assert (Hnp : InvS (makemove true p m)).
-    { apply invS_step; [exact Hp|exact Hm|]. apply GenLegal; [exact (Inv_Inv0 p (is_inv p Hp))|exact Hm]. }
+    assert (Hnp : InvSR (makemove true p m)).
+    { apply invSR_step; [exact Hp|exact Hm|]. apply GenLegal; [exact (Inv_Inv0 p (is_inv p (isr p Hp)))|exact (isr_ep p Hp)|exact Hm]. }
     apply (search_move_bnd rec plymax) in E; [|exact Hr|exact Hnp|exact Ht|exact Hpl].
     destruct E as (Hs & Ht1). cbn zeta in H.
     assert (Ht1' : TBnd (ss_tt (pop_hist s1))) by exact Ht1.
@@ -113,7 +113,7 @@ Proof.
       * apply (IH _ _ _ _ _ _ (fun x Hx => Hms x (or_intror Hx)) Ht1') in H; [exact H|exact Hb].
 Qed.
 
-Lemma null_move_bnd rec plymax p s is_root cn beta ply depth r s' : nbnd rec plymax -> InvS p -> TBnd (ss_tt s) -> 0 <= ply + 1 <= plymax ->
+Lemma null_move_bnd rec plymax p s is_root cn beta ply depth r s' : nbnd rec plymax -> InvSR p -> TBnd (ss_tt s) -> 0 <= ply + 1 <= plymax ->
   null_move rec p s is_root cn (in_check p) beta ply depth = Some (r, s') ->
   TBnd (ss_tt s') /\ match r with Some cut => Z.abs cut <= VB | None => True end.
 Proof.
@@ -122,7 +122,7 @@ Proof.
   - match type of H with match ?x with _ => _ end = _ => destruct x as [[v s1]|] eqn:E; [|discriminate] end.
     assert (Hchk : in_check p = false).
     { apply andb_true_iff in Ec. destruct Ec as [Ec _]. apply andb_true_iff in Ec. destruct Ec as [_ Ec]. apply negb_true_iff in Ec. exact Ec. }
-    assert (Hnp : InvS (makenull p)) by (apply invS_null; [exact Hp|exact (null_safe p (is_inv p Hp) Hchk)]).
+    assert (Hnp : InvSR (makenull p)) by exact (invSR_null p Hp Hchk).
     destruct (Hr _ (push_hist s (hash (makenull p))) _ _ _ _ _ _ _ Hnp Ht Hpl E) as (Hv & Ht1). cbn zeta in H.
     destruct (beta <=? - v); destruct (some_pair_inv _ _ _ _ H) as [<- <-]; (split; [exact Ht1|]); [lia|exact I].
   - destruct (some_pair_inv _ _ _ _ H) as [<- <-]. split; [exact Ht|exact I].
@@ -141,7 +141,7 @@ Proof.
   - intros H. destruct (some_pair_inv _ _ _ _ H) as [<- <-]. split; [|exact Ht]. unfold VB, MATE_SCORE, DRAW_SCORE in *. destruct in_chk; lia.
 Qed.
 
-Lemma nm_moves_bnd rec plymax p s ao alpha beta ply depth is_root cn ttm v s' : nbnd rec plymax -> InvS p -> TBnd (ss_tt s) ->
+Lemma nm_moves_bnd rec plymax p s ao alpha beta ply depth is_root cn ttm v s' : nbnd rec plymax -> InvSR p -> TBnd (ss_tt s) ->
   0 <= ply -> ply + 1 <= plymax -> plymax <= 2 * VB ->
   nm_moves rec p s ao alpha beta ply depth (in_check p) is_root cn ttm = Some (v, s') -> Z.abs v <= VB /\ TBnd (ss_tt s').
 Proof.
@@ -156,27 +156,27 @@ Proof.
     + intros m Hm. apply (Permutation_in _ (sort_n_perm p (legal_moves p) ttm)). exact Hm.
 Qed.
 
-Lemma nm_prune_bnd rec qrec plymax p s ao alpha beta ply depth is_root is_pv cn ttm v s' : nbnd rec plymax -> qbnd qrec -> InvS p -> TBnd (ss_tt s) ->
+Lemma nm_prune_bnd rec qrec plymax p s ao alpha beta ply depth is_root is_pv cn ttm v s' : nbnd rec plymax -> qbnd qrec -> InvSR p -> TBnd (ss_tt s) ->
   0 <= ply -> ply + 1 <= plymax -> plymax <= 2 * VB ->
   nm_prune stopf rec qrec p s ao alpha beta ply depth (in_check p) is_root is_pv cn ttm = Some (v, s') -> Z.abs v <= VB /\ TBnd (ss_tt s').
 Proof.
   intros Hr Hq Hp Ht Hp0 Hp1 Hpm H. unfold nm_prune in H.
   destruct (depth <=? 0) eqn:Ed.
   - destruct (qrec p (ss_stats s) alpha beta ply) as [[v0 st]|] eqn:E; [|discriminate].
-    destruct (some_pair_inv _ _ _ _ H) as [<- <-]. apply Hq in E; [|exact (InvS_16 p Hp)]. split; [unfold EVB, VB, MATE_SCORE in *; lia|exact Ht].
+    destruct (some_pair_inv _ _ _ _ H) as [<- <-]. apply Hq in E; [|exact (InvSR_16R p Hp)]. split; [unfold EVB, VB, MATE_SCORE in *; lia|exact Ht].
   - destruct (stopf (ss_stats s) && negb (is_root && (st_depth (ss_stats s) <=? 1))).
     { destruct (some_pair_inv _ _ _ _ H) as [<- <-]. split; [unfold VB, MATE_SCORE; lia|exact Ht]. }
     cbv zeta in H.
     destruct (((100 <=? halfmoves p) || _) && negb is_root).
     { destruct (some_pair_inv _ _ _ _ H) as [<- <-]. split; [unfold VB, MATE_SCORE, DRAW_SCORE; lia|exact Ht]. }
     destruct (negb is_pv && negb (in_check p) && (depth <? RFP_DEPTH) && _) eqn:Er.
-    { destruct (some_pair_inv _ _ _ _ H) as [<- <-]. split; [|exact Ht]. pose proof (invS_eval p Hp) as He.
+    { destruct (some_pair_inv _ _ _ _ H) as [<- <-]. split; [|exact Ht]. pose proof (invS_eval p (isr p Hp)) as He.
       apply andb_true_iff in Er. destruct Er as [Er _]. apply andb_true_iff in Er. destruct Er as [_ Er]. apply Z.ltb_lt in Er. apply Z.leb_gt in Ed.
       unfold VB, MATE_SCORE, RFP_DEPTH, RFP_MARGIN in *. lia. }
     apply (nm_moves_bnd rec plymax) in H; assumption.
 Qed.
 
-Lemma nm_body_bnd rec qrec plymax p s alpha beta ply depth cn v s' : nbnd rec plymax -> qbnd qrec -> InvS p -> TBnd (ss_tt s) ->
+Lemma nm_body_bnd rec qrec plymax p s alpha beta ply depth cn v s' : nbnd rec plymax -> qbnd qrec -> InvSR p -> TBnd (ss_tt s) ->
   0 <= ply -> ply + 1 <= plymax -> plymax <= 2 * VB ->
   nm_body stopf rec qrec p s alpha beta ply depth cn = Some (v, s') -> Z.abs v <= VB /\ TBnd (ss_tt s').
 Proof.
@@ -192,7 +192,7 @@ Proof.
 Qed.
 
 Theorem negamax_bnd : forall fuel plymax, plymax <= 2 * VB ->
-  forall q s a b pl d cn v s', InvS q -> TBnd (ss_tt s) -> 0 <= pl -> pl + Z.of_nat fuel <= plymax ->
+  forall q s a b pl d cn v s', InvSR q -> TBnd (ss_tt s) -> 0 <= pl -> pl + Z.of_nat fuel <= plymax ->
   negamax stopf fuel q s a b pl d cn = Some (v, s') -> Z.abs v <= VB /\ TBnd (ss_tt s').
 Proof.
   induction fuel as [|f IH]; intros plymax Hpm q s a b pl d cn v s' Hq Ht Hp0 Hp1 H; [discriminate|].
@@ -204,7 +204,7 @@ Proof.
 Qed.
 
 (* ------------------------------------------------------------------ the root: every reported score is within the mate bounds *)
-Lemma root_loop_scores : forall n fuel p depth s best infos r, InvS p -> TBnd (ss_tt s) -> Z.of_nat fuel <= 2 * VB ->
+Lemma root_loop_scores : forall n fuel p depth s best infos r, InvSR p -> TBnd (ss_tt s) -> Z.of_nat fuel <= 2 * VB ->
   (forall i, In i infos -> Z.abs (i_score i) <= VB) ->
   root_loop stopf n fuel p depth s best infos = Some r ->
   (forall i, In i (rr_infos r) -> Z.abs (i_score i) <= VB) /\ TBnd (ss_tt (rr_state r)).
@@ -224,7 +224,7 @@ Proof.
     + injection H as <-. cbn [rr_infos rr_state]. split; [|exact Ht1]. intros i Hin. apply in_rev in Hin. exact (Hi i Hin).
 Qed.
 
-Theorem root_scores_bounded fuel p hist tt r : InvS p -> TBnd tt -> Z.of_nat fuel <= 2 * VB ->
+Theorem root_scores_bounded fuel p hist tt r : InvSR p -> TBnd tt -> Z.of_nat fuel <= 2 * VB ->
   root stopf fuel p hist tt = Some r ->
   (forall i, In i (rr_infos r) -> - MATE_SCORE <= i_score i <= MATE_SCORE /\ - INF < i_score i < INF) /\ TBnd (ss_tt (rr_state r)).
 Proof.
@@ -232,15 +232,15 @@ Proof.
   destruct H as (Hs & Ht'). split; [|exact Ht']. intros i Hi. specialize (Hs i Hi). unfold VB, MATE_SCORE, INF in *. lia.
 Qed.
 (* ------------------------------------------------------------------ C03: the root answers with a legal move whenever there is one *)
-Lemma n_loop_first_sets rec plymax p in_chk beta ply depth m ms s alpha r : nbnd rec plymax -> InvS p -> 0 <= ply + 1 <= plymax ->
+Lemma n_loop_first_sets rec plymax p in_chk beta ply depth m ms s alpha r : nbnd rec plymax -> InvSR p -> 0 <= ply + 1 <= plymax ->
   (forall x, In x (m :: ms) -> In x (legal_moves p)) -> TBnd (ss_tt s) ->
   n_loop rec p in_chk beta ply depth (m :: ms) 0 s alpha (- INF) None = Some r -> snd (fst r) <> None.
 Proof.
   intros Hr Hp Hpl Hms Ht H. cbn [n_loop] in H.
   match type of H with match ?x with _ => _ end = _ => destruct x as [[score s1]|] eqn:E; [|discriminate] end.
   assert (Hm : In m (legal_moves p)) by (apply Hms; left; reflexivity).
-  assert (Hnp : InvS (makemove true p m)).
-  { apply invS_step; [exact Hp|exact Hm|]. apply GenLegal; [exact (Inv_Inv0 p (is_inv p Hp))|exact Hm]. }
+  assert (Hnp : InvSR (makemove true p m)).
+  { apply invSR_step; [exact Hp|exact Hm|]. apply GenLegal; [exact (Inv_Inv0 p (is_inv p (isr p Hp)))|exact (isr_ep p Hp)|exact Hm]. }
   apply (search_move_bnd rec plymax) in E; [|exact Hr|exact Hnp|exact Ht|exact Hpl]. destruct E as (Hs & _).
   cbv zeta in H.
   assert (Hlt : (- INF <? score) = true) by (apply Z.ltb_lt; unfold VB, MATE_SCORE, INF in *; lia).
@@ -251,7 +251,7 @@ Qed.
 
 (* one iteration at the root: either it was stopped (only possible from the second iteration on) or the statistics carry a
    move that is legal in the root position *)
-Lemma root_iteration fuel p s depth v s' : InvS p -> TBnd (ss_tt s) -> Z.of_nat fuel <= 2 * VB -> legal_moves p <> [] ->
+Lemma root_iteration fuel p s depth v s' : InvSR p -> TBnd (ss_tt s) -> Z.of_nat fuel <= 2 * VB -> legal_moves p <> [] ->
   1 <= depth -> st_depth (ss_stats s) = depth ->
   negamax stopf fuel p s (- INF) INF 0 depth false = Some (v, s') ->
   (1 < depth /\ stopf (ss_stats s') = true /\ st_best (ss_stats s') = st_best (ss_stats s) /\ TBnd (ss_tt s'))
@@ -286,7 +286,7 @@ Proof.
 Qed.
 
 
-Lemma root_loop_legal : forall n fuel p depth s best infos r, InvS p -> TBnd (ss_tt s) -> Z.of_nat fuel <= 2 * VB -> legal_moves p <> [] ->
+Lemma root_loop_legal : forall n fuel p depth s best infos r, InvSR p -> TBnd (ss_tt s) -> Z.of_nat fuel <= 2 * VB -> legal_moves p <> [] ->
   1 <= depth ->
   (1 < depth -> (exists m, best = Some m /\ In m (legal_moves p)) /\ st_best (ss_stats s) <> None) ->
   root_loop stopf n fuel p depth s best infos = Some r ->
@@ -311,7 +311,7 @@ Proof.
         -- intros _. split; [exists m; split; [reflexivity|exact Hin]|rewrite Hm; discriminate].
 Qed.
 
-Theorem root_answers_legal fuel p hist tt r : InvS p -> TBnd tt -> Z.of_nat fuel <= 2 * VB -> legal_moves p <> [] ->
+Theorem root_answers_legal fuel p hist tt r : InvSR p -> TBnd tt -> Z.of_nat fuel <= 2 * VB -> legal_moves p <> [] ->
   root stopf fuel p hist tt = Some r -> exists m, rr_best r = Some m /\ In m (legal_moves p).
 Proof.
   intros Hp Ht Hf Hne H. unfold root in H.
